@@ -204,6 +204,13 @@ def abortOps (c : Cfg) (ws : List (Bytes × Nat)) (fs : FS) : List Op :=
   let pre := initOps c ++ writeOps c ws
   pre ++ rollbackOps c (run fs pre)
 
+/-- `world.flush()`: the registered flushers run one after the other, each an atomic write of its
+own file (users, channels, networks, ignores, userdata.conf …); a flusher that raises is logged and
+the next one runs -/
+def multiOps (fs : FS) : List (Cfg × List (Bytes × Nat)) → List Op
+  | [] => []
+  | (c, ws) :: js => flushOps c ws fs ++ multiOps (run fs (flushOps c ws fs)) js
+
 /-- the content a completed flush is meant to install -/
 def newContent (ws : List (Bytes × Nat)) : Bytes := (ws.map (·.1)).flatten
 
